@@ -30,14 +30,42 @@ class ConcreteCtx:
     def __init__(self, model):
         self.model = model
         self.counters = {}
+        self.trace = []            # ghost events recorded by stub objects during a native replay
 
     def fresh_name(self, base):
         n = self.counters.get(base, 0)
         self.counters[base] = n + 1
         return base if n == 0 else '%s!%d' % (base, n)
 
-    def get(self, name, default):
+    def get(self, name, default, n=None):
+        """value of constant `name` in the model; n: the value is an index below n"""
         return self.model.get(name, default)
+
+
+class RandomCtx(ConcreteCtx):
+    """Concrete values chosen at random (seeded): used for the CPython cross-check of the interpreter."""
+
+    def __init__(self, rnd):
+        ConcreteCtx.__init__(self, {})
+        self.rnd = rnd
+
+    def get(self, name, default, n=None):
+        if name in self.model:
+            return self.model[name]
+        r = self.rnd
+        if n is not None:
+            v = r.randrange(n)
+        elif isinstance(default, bool):
+            v = r.random() < 0.5
+        elif isinstance(default, int):
+            v = r.choice([-2, -1, 0, 1, 2, 3, 5, 10]) if default == 0 else default + r.choice([0, 1, 2, 7])
+        elif isinstance(default, str):
+            v = ''.join(r.choice(['a', 'b', ' ', '\n', '@', '[', ']', "'", '"', '#', 'é'])
+                        for _ in range(r.randrange(0, 6)))
+        else:
+            v = default
+        self.model[name] = v
+        return v
 
 
 class Ty:
@@ -142,7 +170,7 @@ class OneOf(Ty):
     def concrete(self, cx, name):
         if len(self.values) == 1:
             return self.values[0]
-        return self.values[cx.get(cx.fresh_name(name + '.idx'), 0)]
+        return self.values[cx.get(cx.fresh_name(name + '.idx'), 0, len(self.values))]
 
 
 def EnumOf(cls, *extra):
@@ -162,7 +190,7 @@ class Union(Ty):
         return self.alts[i].make(interp, name)
 
     def concrete(self, cx, name):
-        i = cx.get(cx.fresh_name(name + '.alt'), 0)
+        i = cx.get(cx.fresh_name(name + '.alt'), 0, len(self.alts))
         return self.alts[i].concrete(cx, name)
 
 
@@ -256,7 +284,16 @@ class ListOf(Ty):
         def elem(interp2, idx_term, uid=uid):
             return make_indexed(interp2, elem_ty, uid, idx_term)
 
-        return SList(n, elem, uid)
+        xs = SList(n, elem, uid)
+        xs.elem_ty = elem_ty
+        return xs
+
+    def concrete(self, cx, name):
+        n = cx.get(cx.fresh_name(name + '.len'), self.min_len, None)
+        if isinstance(cx, RandomCtx):
+            n = self.min_len + abs(n) % 4
+        n = max(self.min_len, min(int(n), 6))
+        return [self.elem.concrete(cx, '%s[%d]' % (name, i)) for i in range(n)]
 
 
 class MListOf(Ty):
@@ -264,8 +301,9 @@ class MListOf(Ty):
     (pyvc.mlist.MList): results accumulated in loops, out-parameters.  In `M.loop(... modifies=...)` the
     list is havocked in place."""
 
-    def __init__(self, elem):
+    def __init__(self, elem, deque=False):
         self.elem = elem
+        self.deque = deque      # a collections.deque (without maxlen): additionally popleft / appendleft
 
     def shape(self):
         return _mshape(self.elem)
@@ -276,7 +314,11 @@ class MListOf(Ty):
         n = interp.st.fresh_int(name + '.len')
         interp.st.assume(n >= 0)
         m.length = n
+        m.is_deque = self.deque
         return m
+
+    def concrete(self, cx, name):
+        return ListOf(self.elem).concrete(cx, name)
 
 
 def _mshape(ty):
@@ -288,7 +330,33 @@ def _mshape(ty):
         return ('bool',)
     if isinstance(ty, _Str):
         return ('str',)
+    if isinstance(ty, Iface):
+        from .mlist import record_shape
+        iface = ty.iface() if isinstance(ty.iface, types.FunctionType) else ty.iface
+        return record_shape(iface)
     raise Unsupported('MListOf element type %r' % (ty,))
+
+
+class IterOf(Ty):
+    """An iterator over a sequence of symbolic length (e.g. the lines of a file), positioned at its start.
+    In clauses: `it.xs` is the underlying sequence, `it.pos` the number of items consumed so far."""
+
+    def __init__(self, elem, at_start=True, min_len=0):
+        self.elem = elem
+        self.at_start = at_start      # False: an arbitrary number of items has been consumed already
+        self.min_len = min_len
+
+    def make(self, interp, name):
+        from .models import SIter
+        xs = ListOf(self.elem, self.min_len).make(interp, name)
+        if self.at_start:
+            return SIter(xs, 0)
+        p = interp.st.fresh_int(name + '.pos')
+        interp.st.assume(z3.And(p >= 0, p <= xs.length))
+        return SIter(xs, SInt(p))
+
+    def concrete(self, cx, name):
+        return iter(ListOf(self.elem).concrete(cx, name))
 
 
 class FixedList(Ty):
@@ -328,30 +396,48 @@ class Opaq(Ty):
     def make(self, interp, name):
         return OpaqueVal(interp.st.fresh_name(name))
 
+    def concrete(self, cx, name):
+        return _Anything(cx.fresh_name(name))
+
+
+class _Anything:
+    def __init__(self, name):
+        self.name = name
+
+    def __repr__(self):
+        return '<any %s>' % self.name
+
 
 Any_ = Opaq()
 
 
 class Custom(Ty):
-    def __init__(self, fn):
+    def __init__(self, fn, concrete=None):
         self.fn = fn
+        self.concrete_fn = concrete
 
     def make(self, interp, name):
         return self.fn(interp, name)
 
+    def concrete(self, cx, name):
+        if self.concrete_fn is None:
+            raise NoConcrete('Custom shape without a concrete reconstruction')
+        return self.concrete_fn(cx, name)
 
-class IterOf(Ty):
-    """An iterator (position 0) over a fresh sequence of symbolic length (e.g. the lines of a file): the shape of
-    a `lines: Iterator[str]` parameter.  In clauses: `it.xs` is the underlying sequence, `it.pos` the number of
-    items consumed so far."""
 
-    def __init__(self, elem, min_len=0):
-        self.elem = elem
-        self.min_len = min_len
+class Dependent(Ty):
+    """Shape of a result (or of a raised exception) that is built from the arguments of the call:
+    ``fn(interp, name, env)`` with ``env`` = parameters and ghosts by name.  Only meaningful where a
+    contract is *used* (call sites); e.g. a result object that carries one of the arguments."""
+
+    def __init__(self, fn):
+        self.fn = fn
 
     def make(self, interp, name):
-        from .models import SIter
-        return SIter(ListOf(self.elem, self.min_len).make(interp, name), 0)
+        raise Unsupported('Dependent shape outside a call site')
+
+    def make_for_call(self, interp, name, env):
+        return self.fn(interp, name, env)
 
 
 class InPlace:
@@ -407,12 +493,58 @@ def make_indexed(interp, ty, uid, idx_term):
     if isinstance(ty, FixedList):
         vals = [make_indexed(interp, t, '%s.%d' % (uid, i), idx_term) for i, t in enumerate(ty.elems)]
         return tuple(vals) if ty.as_tuple else vals
+    return indexed_value(interp, ty, uid + '[]', (idx_term,))
+
+
+def indexed_value(interp, ty, base, idx):
+    """A value of shape ``ty`` that is a function of the index tuple ``idx`` (element of a symbolic-length
+    sequence, or a component of such an element): scalars are applications of uninterpreted functions
+    named after ``base``, real instances (`Inst`) are built from indexed fields."""
+    st = interp.st
+    sorts = [z3.IntSort()] * len(idx)
+    if isinstance(ty, _Int):
+        t = z3.Function(base, *(sorts + [z3.IntSort()]))(*idx)
+        if ty.lo is not None:
+            st.assume(t >= ty.lo)
+        if ty.hi is not None:
+            st.assume(t <= ty.hi)
+        return SInt(t)
+    if isinstance(ty, _Bool):
+        return SBool(z3.Function(base, *(sorts + [z3.BoolSort()]))(*idx))
+    if isinstance(ty, _Str):
+        return SStr(z3.Function(base, *(sorts + [z3.StringSort()]))(*idx))
     if isinstance(ty, Opt):
-        f = z3.Function(uid + '[].is_none', z3.IntSort(), z3.BoolSort())
-        return SOpt(f(idx_term), make_indexed(interp, ty.inner, uid, idx_term))
+        isn = z3.Function(base + '.is_none', *(sorts + [z3.BoolSort()]))(*idx)
+        return SOpt(isn, indexed_value(interp, ty.inner, base, idx))
+    if isinstance(ty, Iface) and not isinstance(ty, Involution):
+        iface = ty.iface() if isinstance(ty.iface, types.FunctionType) else ty.iface
+        return new_opaque(interp, iface, base, index=idx)
+    if isinstance(ty, OneOf):
+        if len(ty.values) == 1:
+            return ty.values[0]
+        t = z3.Function(base + '.idx', *(sorts + [z3.IntSort()]))(*idx)
+        st.assume(z3.And(t >= 0, t < len(ty.values)))
+        return SChoice(t, ty.values)
     if isinstance(ty, Const):
         return ty.value
-    raise Unsupported('indexed element of type %r' % (ty,))
+    if isinstance(ty, Opaq):
+        return OpaqueVal('%s[%s]' % (base, ', '.join(str(z3.simplify(i)) for i in idx)))
+    if isinstance(ty, Inst):
+        cls = ty.cls
+        if ty.tuple_items is not None:
+            obj = tuple.__new__(cls, [indexed_value(interp, t, '%s[%d]' % (base, i), idx)
+                                      for i, t in enumerate(ty.tuple_items)])
+        elif issubclass(cls, BaseException):
+            obj = cls.__new__(cls)
+        else:
+            obj = object.__new__(cls)
+        for k, t in ty.fields.items():
+            v = indexed_value(interp, t, '%s.%s' % (base, k), idx) if isinstance(t, Ty) else t
+            object.__setattr__(obj, k, v)
+        if ty.invariant is not None:
+            st.assume(interp.truth(interp.call(ty.invariant, [obj], {})))
+        return obj
+    raise Unsupported('indexed value of type %r' % (ty,))
 
 
 # ============================================================================ interfaces (opaque objects)
@@ -529,7 +661,7 @@ def _indexed_scalar(interp, o, name, ty):
         return SChoice(t, ty.values) if len(ty.values) > 1 else ty.values[0]
     if isinstance(ty, Const):
         return ty.value
-    raise Unsupported('indexed attribute of type %r' % (ty,))
+    return indexed_value(interp, ty, base, idx)
 
 
 class Registry:
@@ -545,30 +677,48 @@ class Registry:
         self.ghost_env = {}
         self.transparent = set()
         self.missing = []
+        self.local_shapes = {}     # FuncInfo -> {local name: MListOf}
 
     # ----- registration ---------------------------------------------------------
     def add_contract(self, c):
-        self.contracts[c.qname] = c
+        """Several sidecar modules may give the same function a contract (e.g. C04 verifies
+        `_do_execute` in detail while C01 only needs a trusted summary of it).  The first one is registered
+        under the qualified name, further ones under 'qname#<module property>'."""
+        key = c.qname
+        if key in self.contracts:
+            key = '%s#%s' % (c.qname, getattr(getattr(c, 'module', None), 'prop', '?'))
+            n = 2
+            while key in self.contracts:
+                key = '%s#%s.%d' % (c.qname, getattr(getattr(c, 'module', None), 'prop', '?'), n)
+                n += 1
+        c.key = key
+        self.contracts[key] = c
 
     def link(self):
         """Resolve qualified names against the imported current tree."""
         self.by_func = {}
         self.missing = []
-        for q, c in self.contracts.items():
+        for key, c in self.contracts.items():
+            q = c.qname
             try:
                 obj, owner = frontend.resolve_qualified(q)
             except LookupError as e:
-                self.missing.append((q, str(e)))
+                self.missing.append((key, str(e)))
                 continue
             f = frontend.raw_function(obj)
             if not isinstance(f, types.FunctionType):
-                self.missing.append((q, 'contract target is not a python function: %r' % (obj,)))
+                self.missing.append((key, 'contract target is not a python function: %r' % (obj,)))
                 continue
             c.func = f
             c.owner = owner
             c.raw = obj
-            self.by_func[f] = c
+            self.by_func.setdefault(f, []).append(c)
             c.returns_value = None
+            if c.locals:
+                try:
+                    self.local_shapes[frontend.funcinfo_of(f)] = c.locals
+                except Exception as e:
+                    self.missing.append((q, 'locals=: cannot locate the source (%s)' % e))
         self.loops_by_code = {}
         for (q, ordinal), ls in self.loops.items():
             try:
@@ -580,11 +730,45 @@ class Registry:
             self.loops_by_code[(f.__code__, ordinal)] = ls
 
     def contract_for(self, func):
-        return self.by_func.get(func)
+        """The contract used at a call site: the one of the sidecar module whose function is being
+        verified if it has one, else the first verified (non-trusted) one, else the first."""
+        cands = self.by_func.get(func)
+        if not cands:
+            return None
+        cur = getattr(self, 'current_module', None)
+        for c in cands:
+            if getattr(c, 'module', None) is cur and cur is not None:
+                return c
+        for c in cands:
+            if not c.trusted:
+                return c
+        # an ASSUMED contract belongs to the module that states (and lists) the assumption: other modules
+        # see the real body, unless the assumption is declared shared
+        for c in cands:
+            if getattr(c, 'shared', False) or cur is None:
+                return c
+        return None
+
+    def args_fit_contract(self, interp, c, func, args, kwargs):
+        from . import verify
+        try:
+            bound = verify.bind_call_args(func, args, kwargs)
+        except Unsupported:
+            return False
+        for name, ty in c.params.items():
+            if name in bound and not _fits(ty, bound[name]):
+                return False
+        return True
 
     def model_for(self, f):
         try:
-            return self.models.get(f)
+            m = self.models.get(f)
+            if m is None:
+                # library models registered with pyvc.models.model(...) (also for the ghost primitives of
+                # pyvc/pymodels, which are python functions in an interpretable file)
+                from . import models as _models
+                m = _models.MODELS.get(f)
+            return m
         except TypeError:
             return None
 
@@ -693,12 +877,56 @@ def _returns_a_value(f):
         return True
     if info.is_generator:
         return True
-    from .loops import _walk_own
-    for n in _walk_own(info.node):
+    todo = list(info.node.body)
+    while todo:
+        n = todo.pop()
+        if isinstance(n, (_ast.FunctionDef, _ast.AsyncFunctionDef, _ast.Lambda, _ast.ClassDef)):
+            continue        # a nested definition: its returns are not returns of this function
         if isinstance(n, _ast.Return) and n.value is not None and not (
                 isinstance(n.value, _ast.Constant) and n.value.value is None):
             return True
+        todo.extend(_ast.iter_child_nodes(n))
     return False
+
+
+def _fits(ty, v):
+    """Could the value have been produced by the shape?  (conservative for shapes that cannot be inspected)"""
+    if isinstance(v, SChoice):
+        return all(_fits(ty, a) for a in v.alts)
+    if isinstance(ty, Opt):
+        if v is None:
+            return True
+        if isinstance(v, SOpt):
+            return _fits(ty.inner, v.val)
+        return _fits(ty.inner, v)
+    if isinstance(v, SOpt):
+        return False
+    if isinstance(ty, Iface):
+        iface = ty.iface() if isinstance(ty.iface, types.FunctionType) else ty.iface
+        return isinstance(v, Opaque) and isinstance(v._pv_iface, type) and issubclass(v._pv_iface, iface)
+    if isinstance(ty, Inst):
+        if isinstance(v, (Opaque, Sym)) or not isinstance(v, ty.cls):
+            return False
+        d = getattr(v, '__dict__', {})
+        return all(_fits(t, d[k]) for k, t in ty.fields.items() if isinstance(t, Ty) and k in d)
+    if isinstance(ty, _Int):
+        return isinstance(v, (SInt, int)) and not isinstance(v, bool)
+    if isinstance(ty, _Bool):
+        return isinstance(v, (SBool, bool))
+    if isinstance(ty, _Str):
+        return isinstance(v, (SStr, str))
+    if isinstance(ty, ListOf):
+        if isinstance(v, (list, tuple)):
+            return all(_fits(ty.elem, x) for x in v)
+        if isinstance(v, SList):
+            et = getattr(v, 'elem_ty', None)
+            if isinstance(et, Iface) and isinstance(ty.elem, Iface):
+                a = et.iface() if isinstance(et.iface, types.FunctionType) else et.iface
+                b = ty.elem.iface() if isinstance(ty.elem.iface, types.FunctionType) else ty.elem.iface
+                return isinstance(a, type) and issubclass(a, b)
+            return True
+        return False
+    return True
 
 
 class OpaqueMethod:
@@ -776,7 +1004,7 @@ class Contract:
     def __init__(self, qname, params=None, ghosts=None, requires=None, returns=None, ensures=None,
                  raises=None, may_raise=(), raises_only=None, modifies=None, props=(), setup=None,
                  old=None, pure_result=False, notes='', concretize=None, replay=None, trusted=False,
-                 cover=True, inline=False, event=None, yields=None):
+                 cover=True, inline=False, event=None, yields=None, shared=False, locals=None):
         self.qname = qname
         self.params = params or {}
         self.ghosts = ghosts or {}
@@ -786,7 +1014,12 @@ class Contract:
         self.raises = raises or {}          # {ExcClass: {'when': pred or None, 'ensures': pred or None}}
         self.may_raise = tuple(may_raise)   # exception classes the function may raise non-deterministically
         self.raises_only = raises_only      # tuple of exception classes or None (= not checked)
-        self.modifies = modifies
+        # call sites: parameters (or 'param.attr.attr' paths) that are mutable symbolic lists / iterators whose
+        # contents the function changes: havocked between `requires`/`old` and `ensures`
+        self.modifies = modifies if isinstance(modifies, dict) else tuple(modifies or ())
+        # {local name: MListOf(...)}: a list literal assigned to this local is represented as a symbolic
+        # mutable list from the start (needed when the list is later handed to a contract that modifies it)
+        self.locals = locals or {}
         self.props = tuple(props)
         self.setup = setup                  # optional: (interp) -> dict of extra ghost bindings / state
         self.old = old                      # optional: callable(args...) -> snapshot, evaluated before the call
@@ -794,6 +1027,7 @@ class Contract:
         self.replay = replay
         self.trusted = trusted              # True: assumed contract (not verified); listed in evidence
         self.cover = cover
+        self.shared = shared                # trusted contracts: also applied when other modules' functions are verified
         self.yields = yields                # generator functions: shape of the items (ListOf(...)) for call sites
         self.event = event                  # ghost event emitted at call sites that use the contract
         self.inline = inline                # verified, but call sites interpret the body (tiny helpers)
@@ -822,6 +1056,10 @@ class Module:
         self.loops = []
         self.models = {}
         self.checks = []       # extra obligation generators: (name, fn(ctx))
+        # contracts of OTHER sidecar modules at call sites of this module's functions:
+        #   'apply' (default) use them; 'fit' only when the arguments have the shapes the contract is stated
+        #   for, otherwise the real body is interpreted; 'ignore' never (always interpret the body)
+        self.foreign_contracts = 'apply'
         self.bounded_checks = []   # bounded stand-ins: (name, fn(ctx)) -- never counted as proved
         self.transparent = []
         self.assumptions = []
@@ -829,6 +1067,7 @@ class Module:
 
     def contract(self, qname, **kw):
         c = Contract(qname, **kw)
+        c.module = self
         if not c.props:
             c.props = (self.prop,)
         self.contracts.append(c)
